@@ -14,3 +14,21 @@ package config
 //@   ensures[C09,C19] (err == nil && p != nil) ==> called(WriteTo) && callcount(Write) == 2 && callcount(WriteTo) == 2
 //@   assert_at[C09,C19] WriteTo "p.Paillier.WriteTo(w)": wlog(w) == wcat(wcat(old(wlog(w)), benc(p.ECDSA)), benc(p.ElGamal))
 //@   assert_at[C09,C19] WriteTo "p.Pedersen.WriteTo(w)": wlog(w) == wcat(wcat(wcat(old(wlog(w)), benc(p.ECDSA)), benc(p.ElGamal)), nbytes(p.Paillier.n.Modulus))
+
+//@ pred cfgok(c *Config) := c != nil && c.Group != nil && c.Public != nil && forall(k, party.ID, indom(c.Public, k) ==> pubok(c.Public[k]))
+
+// The group key (C02, C01): the sum over ALL parties j of the table of lagr(all parties, x_j) * X_j.
+//@ func (*Config).PublicPoint
+//@   nopanic[C05]
+//@   use psum
+//@   requires cfgok(c)
+//@   modifies nothing
+//@   allocates
+//@   let T = lam(k, party.ID, act(lagr(idsval(partyIDs), idsc(k)), old(ptval(c.Public[k].ECDSA))))
+//@   ensures[C02,C01] ptval(result) == psum(domset(c.Public), T)
+//@   loop 1: invariant fresh(partyIDs)
+//@   loop 1: invariant forall(k, party.ID, visited(1, k) ==> inslice(partyIDs, k))
+//@   loop 2: invariant forall(k, party.ID, indom(c.Public, k) ==> indom(l, k))
+//@   loop 2: invariant[C02,C01] sum != nil && ptval(sum) == psum(visitedset(2), T)
+//@   loop 2: invariant[C02,C01] forall(k, party.ID, visited(2, k) ==> indom(c.Public, k))
+//@   loop 2: invariant forall(j, party.ID, indom(l, j) ==> (l[j] != nil && scval(l[j]) == lagr(idsval(partyIDs), idsc(j))))
